@@ -66,3 +66,138 @@ package cache
 //@   loop 1 invariant[visited-are-gone] forall j int :: 0 <= j && j < iter ==> !in(d.cache, ranged[j])
 //@   loop 1 invariant[members-are-listed] forall j int :: 0 <= j && j < len(ranged) ==> in(toDelete, ranged[j])
 //@   modifies d.cache, pqHas(d.pq), pqVal(d.pq)
+
+// ---- C31: the decision cache.
+// KeptReasonsCache interns reason strings: Get(Set(r)) gives back r.
+//@ spec reasonHash(c *KeptReasonsCache, s string) uint64 := wyhash.Hash([]byte(s), c.hashSeed)
+//@ spec indexed(c *KeptReasonsCache) bool := forall h uint64 :: in(c.keys, h) ==> 1 <= c.keys[h] && toInt(c.keys[h]) <= len(c.data) && reasonHash(c, c.data[toInt(c.keys[h]) - 1]) == h
+//@ objinv collect/cache.KeptReasonsCache indexed : indexed(this)
+//@ contract collect/cache.(*KeptReasonsCache).Set props C31
+//@   arith math
+//@   requires c != nil
+//@   domain[table-fits] len(c.data) < 1<<31
+// two different reasons with the same 64-bit hash would share an entry: excluded (not claimed)
+//@   domain[no-hash-collision] in(c.keys, reasonHash(c, key)) ==> c.data[toInt(c.keys[reasonHash(c, key)]) - 1] == key
+//@   ensures[index-names-the-reason] 1 <= result && toInt(result) <= len(c.data) && c.data[toInt(result) - 1] == key
+//@   ensures[earlier-entries-stay] len(c.data) >= old(len(c.data)) && (forall j int :: 0 <= j && j < old(len(c.data)) ==> c.data[j] == old(c.data)[j])
+//@   modifies c.data, c.keys, c.mu
+//@ contract collect/cache.(*KeptReasonsCache).Get props C31,C28
+//@   arith math
+//@   requires c != nil
+//@   domain[index-is-a-32-bit-value] key < 1<<32
+//@   ensures[known-index] 1 <= key && toInt(key) <= len(c.data) ==> result1 && result0 == c.data[toInt(key) - 1]
+//@   ensures[unknown-index] !(1 <= key && toInt(key) <= len(c.data)) ==> !result1 && result0 == ""
+//@   modifies c.mu
+
+// The kept-decision LRU (github.com/hashicorp/golang-lru/v2) and the dropped-trace filter are dependencies /
+// concurrent components: ASSUMED, as abstract maps. Which entries an LRU of a given capacity retains is the
+// library's contract; here: an entry just added or just read is present.
+//@ ghost lruHas(ref, string) bool
+//@ ghost lruVal(ref, string) ref
+//@ ghost lruLen(ref) int
+//@ ghost lruCap(ref) int
+//@ assume github.com/hashicorp/golang-lru/v2.(*Cache).Add
+//@   ghostupdate lruHas(c), lruVal(c), lruLen(c) :: lruHas(c, p0) && toInt(lruVal(c, p0)) == toInt(p1) && (forall k string :: k != p0 ==> (lruHas(c, k) ==> old(lruHas(c, k))) && toInt(lruVal(c, k)) == toInt(old(lruVal(c, k)))) && ((old(lruHas(c, p0)) || old(lruLen(c)) < lruCap(c)) ==> (forall k string :: k != p0 ==> lruHas(c, k) == old(lruHas(c, k))) && lruLen(c) == old(lruLen(c)) + ite(old(lruHas(c, p0)), 0, 1)) && lruLen(c) <= lruCap(c)
+//@ assume github.com/hashicorp/golang-lru/v2.(*Cache).Get
+//@   ensures result1 == lruHas(c, p0) && (result1 ==> toInt(result0) == toInt(lruVal(c, p0)))
+// droppedSet: IDs added to the filter and still within its promise (no queue overflow, not yet rotated out)
+//@ ghost droppedSet(ref, string) bool
+//@ assume collect/cache.(*CuckooTraceChecker).Add
+//@   ghostupdate droppedSet(c) :: forall k string :: droppedSet(c, k) == (old(droppedSet(c, k)) || k == traceID)
+//@ assume collect/cache.(*CuckooTraceChecker).Check
+//@   ensures[no-false-negative] droppedSet(c, traceID) ==> result
+// The trace handed to Record is a *types.Trace (the only implementation of KeptTrace outside tests).
+//@ assume collect/cache.KeptTrace.ID
+//@   ensures result == asPtr(this, *types.Trace).TraceID
+//@ assume collect/cache.KeptTrace.SampleRate
+//@   ensures result == asPtr(this, *types.Trace).sampleRate
+//@ assume collect/cache.KeptTrace.KeptReason
+//@   ensures result == asPtr(this, *types.Trace).keptReason
+//@ assume collect/cache.KeptTrace.SetKeptReason
+//@   ensures asPtr(this, *types.Trace).keptReason == p0
+//@   modifies asPtr(this, *types.Trace).keptReason
+//@ assume collect/cache.KeptTrace.DescendantCount getter
+//@ assume collect/cache.KeptTrace.SpanEventCount getter
+//@ assume collect/cache.KeptTrace.SpanLinkCount getter
+//@ assume collect/cache.KeptTrace.SpanCount getter
+//@ contract collect/cache.NewKeptTraceCacheEntry props C31,C01
+//@   arith wraps
+//@   requires asPtr(t, *types.Trace) != nil
+//@   ensures[fresh-entry-with-the-traces-rate-and-reason] result != nil && isFresh(result) && toInt(result.rate) == toInt(asPtr(t, *types.Trace).sampleRate) % 4294967296 && toInt(result.reason) == toInt(asPtr(t, *types.Trace).keptReason) % 4294967296
+//@   modifies nothing
+//@ contract collect/cache.(*keptTraceCacheEntry).Kept inline
+//@ contract collect/cache.(*cuckooDroppedRecord).Kept inline
+
+// Record: a kept decision is stored with the trace's rate and an index naming its reason; a dropped one is
+// put into the dropped-trace filter. CheckSpan / CheckTrace: dropped wins over kept; a kept entry answers
+// with the recorded rate and reason; nothing remembered answers not-found.
+//@ contract collect/cache.(*cuckooSentCache).Record props C31
+//@   arith math
+//@   requires c != nil && c.kept != nil && c.dropped != nil && c.recentDroppedIDs != nil && c.keptReasons != nil && asPtr(trace, *types.Trace) != nil
+//@   requires[reasons-indexed] indexed(c.keptReasons)
+//@   domain[table-fits] len(c.keptReasons.data) < 1<<31
+//@   domain[no-hash-collision] in(c.keptReasons.keys, reasonHash(c.keptReasons, reason)) ==> c.keptReasons.data[toInt(c.keptReasons.keys[reasonHash(c.keptReasons, reason)]) - 1] == reason
+//@   let id = asPtr(trace, *types.Trace).TraceID
+//@   ensures[kept-is-remembered] keep ==> lruHas(c.kept, id) && isFresh(lruVal(c.kept, id))
+//@   ensures[kept-rate] keep ==> toInt(asPtr(lruVal(c.kept, id), *keptTraceCacheEntry).rate) == toInt(asPtr(trace, *types.Trace).sampleRate) % 4294967296
+//@   ensures[kept-reason] keep && len(c.keptReasons.data) < 1<<31 ==> 1 <= asPtr(lruVal(c.kept, id), *keptTraceCacheEntry).reason && toInt(asPtr(lruVal(c.kept, id), *keptTraceCacheEntry).reason) <= len(c.keptReasons.data) && c.keptReasons.data[toInt(asPtr(lruVal(c.kept, id), *keptTraceCacheEntry).reason) - 1] == reason
+//@   ensures[dropped-is-remembered] !keep ==> droppedSet(c.dropped, id)
+//@   ensures[dropped-decisions-are-never-forgotten-by-record] forall k string :: old(droppedSet(c.dropped, k)) ==> droppedSet(c.dropped, k)
+//@   modifies c.keptReasons.data, c.keptReasons.keys, c.keptReasons.mu, asPtr(trace, *types.Trace).keptReason, all(lruHas), all(lruVal), all(lruLen), all(droppedSet), c.recentDroppedIDs.Items
+
+//@ contract collect/cache.(*cuckooSentCache).CheckTrace props C31
+//@   arith math
+//@   requires c != nil && c.kept != nil && c.dropped != nil && c.keptReasons != nil
+//@   requires[reasons-indexed] indexed(c.keptReasons)
+//@   ensures[dropped-wins] droppedSet(c.dropped, traceID) ==> result2 && isType(result0, *cuckooDroppedRecord) && !result0.Kept()
+//@   ensures[nothing-remembered-means-not-found] !result2 ==> !lruHas(c.kept, traceID) && !droppedSet(c.dropped, traceID)
+//@   ensures[kept-record-is-the-stored-one] result2 && !isType(result0, *cuckooDroppedRecord) ==> lruHas(c.kept, traceID) && toInt(result0) == toInt(lruVal(c.kept, traceID))
+//@   ensures[kept-reason-is-the-interned-one] result2 && !isType(result0, *cuckooDroppedRecord) && 1 <= asPtr(lruVal(c.kept, traceID), *keptTraceCacheEntry).reason && toInt(asPtr(lruVal(c.kept, traceID), *keptTraceCacheEntry).reason) <= len(c.keptReasons.data) ==> result1 == c.keptReasons.data[toInt(asPtr(lruVal(c.kept, traceID), *keptTraceCacheEntry).reason) - 1]
+//@   modifies c.keptReasons.mu
+
+// CheckSpan is CheckTrace plus a short-lived memo of recently seen dropped IDs and the span count of kept entries.
+//@ assume collect/cache.(*keptTraceCacheEntry).Count
+//@   modifies t.eventCount, t.spanEventCount, t.spanLinkCount, t.spanCount, s.annotationType
+//@ contract collect/cache.(*cuckooSentCache).CheckSpan props C31
+//@   arith math
+//@   requires c != nil && c.kept != nil && c.dropped != nil && c.keptReasons != nil && c.recentDroppedIDs != nil && span != nil
+//@   requires[reasons-indexed] indexed(c.keptReasons)
+//@   let id = span.TraceID
+//@   ensures[dropped-wins] droppedSet(c.dropped, id) ==> result2 && isType(result0, *cuckooDroppedRecord) && !result0.Kept()
+//@   ensures[nothing-remembered-means-not-found] !result2 ==> !lruHas(c.kept, id) && !droppedSet(c.dropped, id)
+//@   ensures[kept-is-found] lruHas(c.kept, id) ==> result2
+//@   ensures[kept-record-is-the-stored-one] result2 && !isType(result0, *cuckooDroppedRecord) ==> lruHas(c.kept, id) && toInt(result0) == toInt(lruVal(c.kept, id))
+//@   ensures[kept-reason-is-the-interned-one] result2 && !isType(result0, *cuckooDroppedRecord) && 1 <= asPtr(lruVal(c.kept, id), *keptTraceCacheEntry).reason && toInt(asPtr(lruVal(c.kept, id), *keptTraceCacheEntry).reason) <= len(c.keptReasons.data) ==> result1 == c.keptReasons.data[toInt(asPtr(lruVal(c.kept, id), *keptTraceCacheEntry).reason) - 1]
+//@   ensures[remembered-decisions-stay] (forall k string :: lruHas(c.kept, k) == old(lruHas(c.kept, k)) && toInt(lruVal(c.kept, k)) == toInt(old(lruVal(c.kept, k)))) && (forall k string :: droppedSet(c.dropped, k) == old(droppedSet(c.dropped, k)))
+//@   modifies c.keptReasons.mu, c.recentDroppedIDs.Items, span.annotationType, field(keptTraceCacheEntry, eventCount), field(keptTraceCacheEntry, spanEventCount), field(keptTraceCacheEntry, spanLinkCount), field(keptTraceCacheEntry, spanCount)
+
+// Resize: the new kept-decision LRU holds exactly the newest entries of the old one, up to the new
+// capacity, with their records; nothing is invented. (Which entries are "newest" is the order of the
+// library's Keys(): oldest first - assumed.)
+//@ ghost lruAge(ref, string) int
+//@ assume github.com/hashicorp/golang-lru/v2.New
+//@   ensures size > 0 ==> result1 == nil
+//@   ensures result1 == nil ==> result0 != nil && isFresh(result0) && (forall k string :: !lruHas(result0, k)) && lruLen(result0) == 0 && lruCap(result0) == size
+//@ assume github.com/hashicorp/golang-lru/v2.(*Cache).Keys
+//@   ensures[oldest-first-listing] len(result) == lruLen(c) && (forall i int :: 0 <= i && i < len(result) ==> lruHas(c, result[i]) && lruAge(c, result[i]) == i) && (forall k string :: lruHas(c, k) ==> 0 <= lruAge(c, k) && lruAge(c, k) < len(result) && result[lruAge(c, k)] == k)
+//@ assume collect/cache.(*CuckooTraceChecker).SetNextCapacity
+//@ contract config.SampleCacheConfig.GetKeptSizePerWorker inline
+//@ contract config.SampleCacheConfig.GetDroppedSizePerWorker inline
+//@ contract collect/cache.(*cuckooSentCache).Resize props C31,C01 havocheap
+//@   arith math
+//@   requires c != nil && c.kept != nil && c.dropped != nil
+//@   let old0 = c.kept
+//@   let n = lruLen(c.kept)
+//@   let size = toInt(cfg.GetKeptSizePerWorker())
+//@   domain[capacity-is-positive] 0 < size && size < 1<<31
+//@   ensures[newest-survive-with-their-records] result == nil ==> (forall k string :: lruHas(old0, k) && lruAge(old0, k) >= n - size ==> lruHas(c.kept, k) && toInt(lruVal(c.kept, k)) == toInt(lruVal(old0, k)))
+//@   ensures[nothing-invented] result == nil ==> (forall k string :: lruHas(c.kept, k) ==> lruHas(old0, k) && toInt(lruVal(c.kept, k)) == toInt(lruVal(old0, k)) && lruAge(old0, k) >= n - size)
+//@   loop 1 invariant[same-caches] c != nil && toInt(c.kept) == toInt(old0) && stc != nil && toInt(stc) != toInt(old0) && n == lruLen(old0)
+//@   loop 1 invariant[suffix-size] len(keys) <= size && len(keys) <= n && (len(keys) == n || len(keys) == size)
+//@   loop 1 invariant[suffix-ages] forall j int :: 0 <= j && j < len(keys) ==> lruHas(old0, keys[j]) && lruAge(old0, keys[j]) == n - len(keys) + j
+//@   loop 1 invariant[suffix-complete] forall k string :: lruHas(old0, k) && lruAge(old0, k) >= n - len(keys) ==> lruAge(old0, k) < n && keys[lruAge(old0, k) - (n - len(keys))] == k
+//@   loop 1 invariant[room-left] lruLen(stc) <= iter && lruCap(stc) == size
+//@   loop 1 invariant[copied-so-far] forall j int :: 0 <= j && j < iter ==> lruHas(stc, keys[j]) && toInt(lruVal(stc, keys[j])) == toInt(lruVal(old0, keys[j]))
+//@   loop 1 invariant[nothing-invented] forall k string :: lruHas(stc, k) ==> lruHas(old0, k) && toInt(lruVal(stc, k)) == toInt(lruVal(old0, k)) && lruAge(old0, k) >= n - size
+//@   loop 1 invariant[old-untouched] forall k string :: lruHas(old0, k) == old(lruHas(old0, k)) && toInt(lruVal(old0, k)) == toInt(old(lruVal(old0, k))) && lruAge(old0, k) == old(lruAge(old0, k))
+//@   modifies c.kept, all(lruHas), all(lruVal), all(lruLen), all(sentN)
